@@ -33,6 +33,39 @@ fn line_of<'tcx>(tcx: TyCtxt<'tcx>, sp: Span) -> i128 {
 }
 
 /// A key for a body that contains no line numbers and no impl indices.
+/// {generic parameter name: [paths of the traits it is bounded by]} (own and inherited predicates)
+pub fn generic_bounds<'tcx>(tcx: TyCtxt<'tcx>, did: DefId) -> J {
+    let mut names: Vec<String> = Vec::new();
+    let mut g = Some(tcx.generics_of(did));
+    while let Some(gg) = g {
+        for p in gg.own_params.iter() {
+            names.push(p.name.as_str().to_string());
+        }
+        g = gg.parent.map(|p| tcx.generics_of(p));
+    }
+    let mut out = J::obj();
+    let preds = tcx.predicates_of(did).instantiate_identity(tcx);
+    for n in names.iter() {
+        let mut v: Vec<J> = Vec::new();
+        for (clause, _) in preds.iter() {
+            let clause = clause.skip_norm_wip();
+            if let Some(tc) = clause.as_trait_clause() {
+                let tr = tc.skip_binder().trait_ref;
+                if let rustc_middle::ty::TyKind::Param(pt) = tr.self_ty().kind() {
+                    if pt.name.as_str() == n.as_str() {
+                        let s = tcx.def_path_str(tr.def_id);
+                        if !v.iter().any(|x| matches!(x, J::Str(y) if *y == s)) {
+                            v.push(J::s(&s));
+                        }
+                    }
+                }
+            }
+        }
+        out.put(n, J::Arr(v));
+    }
+    out
+}
+
 pub fn body_key<'tcx>(tcx: TyCtxt<'tcx>, did: DefId) -> String {
     let kind = tcx.def_kind(did);
     if matches!(kind, DefKind::Closure) {
@@ -145,6 +178,7 @@ fn one_body<'tcx>(tcx: TyCtxt<'tcx>, ldid: LocalDefId, kind: DefKind) -> J {
         }
         levels.reverse();
         b.put("generics", J::Arr(levels.into_iter().flatten().collect()));
+        b.put("generic_bounds", generic_bounds(tcx, did));
     } else {
         b.put("parent", J::s(body_key(tcx, tcx.parent(did))));
     }
